@@ -49,6 +49,18 @@ class Sites(ast.NodeVisitor):
         super().generic_visit(node)
 
 
+def _stmt_line(fn, node):
+    """line of the innermost statement containing `node`"""
+    best = None
+    for stn in ast.walk(fn):
+        if isinstance(stn, ast.stmt) and hasattr(stn, "lineno"):
+            if stn.lineno <= node.lineno <= getattr(stn, "end_lineno", stn.lineno):
+                if best is None or stn.lineno >= best.lineno:
+                    if any(sub is node for sub in ast.walk(stn)):
+                        best = stn
+    return best.lineno if best is not None else node.lineno
+
+
 def find_function(tree, qualname):
     parts = [p for p in qualname.split(".") if p != "<locals>"]
     body = tree.body
@@ -113,10 +125,25 @@ def run(contracts, tier, seed, per_function=10, budget_s=1500):
                 continue
             v = Sites()
             v.visit(fn)
-            idxs = list(range(len(v.sites)))
+            # statements actually executed by at least one specialisation of this function on the unmutated source:
+            # a mutation elsewhere is outside the verified text (lines dropped by the typed specialisations)
+            covered = set()
+            for c in cs:
+                ex0, _, err0 = V.gen_unit(c, D.REPO)
+                if ex0 is not None:
+                    covered |= ex0.covered
+            stmt_of = {}
+            for stn in ast.walk(fn):
+                if isinstance(stn, ast.stmt):
+                    for sub in ast.walk(stn):
+                        if hasattr(sub, "lineno") and not isinstance(sub, ast.stmt):
+                            stmt_of.setdefault(id(sub), stn.lineno)
+            idxs = [i for i in range(len(v.sites)) if _stmt_line(fn, v.sites[i][1]) in covered]
+            outside = len(v.sites) - len(idxs)
             rng.shuffle(idxs)
             idxs = idxs[:per_function]
-            rec = {"function": f"{rel}::{qual}", "sites": len(v.sites), "mutants": 0, "killed_by_proof": 0,
+            rec = {"function": f"{rel}::{qual}", "sites": len(v.sites), "sites_outside_verified_text": outside, "mutants": 0,
+                   "killed_by_proof": 0,
                    "killed_by_bounded_only": 0, "survivors": []}
             for i in idxs:
                 if time.time() - t0 > budget_s:
